@@ -14,6 +14,14 @@ CHECKS = {
          "Every program of families E1-E5 (operator x operand-kind pairs, all operator chains of 3/4 operands in every grouping with minimal and full parentheses, evaluation-order probes, every statement tree up to 4/5 nodes on every input vector) is run on the real VM (fresh interpreter per program, crash-isolated) and must print the lines and end with the outcome/error class M-eval computes; disagreements are confirmed twice in isolation.",
          "Trusts M-eval as the language definition (DESIGN.md Appendix A; it agreed with the implementation on every enumerated case when written). Bounded by program size.",
          "5/C05"),
+ "C06": ("bounded-exhaustive program enumeration vs the reference evaluator M-eval (cell-based environments), plus metamorphic wrappings",
+         "Every combination of scope kind x exit path x two closures with every read/write action over two variables through 0-2 intermediate function levels, called inside and after the scope; fresh-variable, shadowing, textual-resolution and many-closures families; each program also wrapped in a block, a function and a fiber. All run on the real VM and compared with M-eval.",
+         "Trusts M-eval's environment model. Bounded: 2 closures x 2 variables (3x3 in one family), nesting depth 3.",
+         "5/C06"),
+ "C08": ("bounded-exhaustive program enumeration vs the reference evaluator M-eval; disagreements attributed to listed findings only through trigger predicates on the model's own execution",
+         "Every nest (depth 2 quick / 3 thorough) of try/catch/finally forms, loops, calls and blocks with every leaf action (throws of 4 value kinds, 6 failing built-ins, deep callee throws, return, break, continue) and every sequential pair of nests, run on the real VM and compared with M-eval's block trace and outcome.",
+         "Four open findings (known_findings.json) are attributed by trigger predicate; the trigger-free population must agree exactly. Bounded by nest depth.",
+         "5/C08"),
 }
 NOT_YET = "check not built yet in this revision of /verif (work in progress; see DESIGN.md section 10)"
 
